@@ -169,3 +169,15 @@ package upstream
 //@   loop 1 invariant[registered] gUpAdded && gTracked && !gUpRemoved && !gUntracked && !gSessClosed && !gConnClosed && gUpgraded
 //@   loop 1 invariant[registered-id] gUpAddedU != nil && gUpAddedU.EndpointID() == ep && !gUpAddedU.Forward() && (gTokOk ==> permitted(unbox(gTok, "*auth.Token"), ep))
 //@   loop 1 invariant[expiry] (gDeadlineSet == (gTokOk && !unbox(gTok, "*auth.Token").Expiry.IsZero())) && (gDeadlineSet ==> gDeadline == unbox(gTok, "*auth.Token").Expiry)
+
+// Shutdown always cancels the shared context, which is what ends the upstream
+// handlers (whatever the HTTP server's own shutdown returned).
+//@ ghost gCancelled bool
+//@ contract CancelFunc
+//@   trusted function-typed contract of the context cancel function stored in Server.cancel
+//@   modifies-all $gCancelled
+//@   ghost-set gCancelled = true
+//@ contract (*Server).Shutdown
+//@   serves C16 C18
+//@   opt dyncall CancelFunc
+//@   ensures[cancelled] gCancelled
